@@ -67,6 +67,8 @@ type recorder struct {
 	stmtRet  []stmtRet
 	panicked string
 	tDepth   int
+	// imbalance: first parse step that returned with a different context than it was entered with
+	imbalance string
 }
 
 type exprRet struct {
@@ -187,6 +189,7 @@ type installation struct {
 	exprDepth     int
 	stmtDepth     int
 	bailed        bool // a bailout happened during the current parse
+	unwinding     bool // a bail-out panic is travelling up the stack
 	muted         bool // parties pass through without recording or acting (nested sibling parse)
 	inStmtReenter bool
 }
@@ -194,6 +197,10 @@ type installation struct {
 var oddPrefixes = []string{"\xEF\xBB\xBF", "\xEF\xBB\xBF// c\n", "\uFEFF\n", "#!/usr/bin/env xjs\n", "\x00", "\u200b", "\u00a0", "\r\n", "\t\v\f ", "/**/", "<!-- x\n", "\xFF\xFE", "\u2028"}
 
 type bailoutPanic struct{}
+
+// recover0: the balance of an expression step is only judged when it returned normally
+// (a bail-out panic passing through leaves inner steps unfinished by design).
+func recover0(x *installation) bool { return !x.unwinding }
 
 // specificPrefix parses the prefix with the public parse function for the current token's kind.
 func specificPrefix(p *parser.Parser) ast.Expression {
@@ -322,6 +329,13 @@ func (x *installation) add(k byte, via bool) {
 				}
 				entry := p.CurrentToken
 				ord := r.ordinal(entry)
+				c0, f0 := p.CurrentContext(), p.IsInFunction()
+				defer func() {
+					// a parse step, successful or not, leaves the context as it found it
+					if c1, f1 := p.CurrentContext(), p.IsInFunction(); (c1 != c0 || f1 != f0) && r.imbalance == "" {
+						r.imbalance = fmt.Sprintf("statement step at token %s: context before (%d, inFunction=%v), after (%d, inFunction=%v)", xutil.TokString(entry), int(c0), f0, int(c1), f1)
+					}
+				}()
 				if in.bailout {
 					x.stmtDepth++
 					depth := x.stmtDepth
@@ -334,6 +348,7 @@ func (x *installation) add(k byte, via bool) {
 									panic(rec)
 								}
 								st.Inc("probe.bailout_recovered_by_outer_interceptor")
+								x.unwinding = false
 								result = nil
 							}
 						}
@@ -343,6 +358,7 @@ func (x *installation) add(k byte, via bool) {
 						if p.IsInFunction() {
 							st.Inc("probe.bailout_thrown_inside_function_body")
 						}
+						x.unwinding = true
 						panic(bailoutPanic{})
 					}
 				}
@@ -383,6 +399,12 @@ func (x *installation) add(k byte, via bool) {
 				}
 				entry := p.CurrentToken
 				ord := r.ordinal(entry)
+				c0, f0 := p.CurrentContext(), p.IsInFunction()
+				defer func() {
+					if c1, f1 := p.CurrentContext(), p.IsInFunction(); (c1 != c0 || f1 != f0) && r.imbalance == "" && recover0(x) {
+						r.imbalance = fmt.Sprintf("expression step at token %s: context before (%d, inFunction=%v), after (%d, inFunction=%v)", xutil.TokString(entry), int(c0), f0, int(c1), f1)
+					}
+				}()
 				re := false
 				switch in.policy {
 				case 1:
@@ -564,6 +586,66 @@ func leftmostExpr(e ast.Expression) (token.Token, bool) {
 		}
 	}
 	return token.Token{}, false
+}
+
+// exprChildren lists, with their role, the sub-expressions that a parser obtains through an expression
+// parse step of its own (operands, arguments, elements, values, conditions, member properties).
+func exprChildren(n any, out *[]roleExpr) {
+	add := func(role string, e ast.Expression) {
+		if e != nil && !xutil.IsNilValue(e) {
+			*out = append(*out, roleExpr{role, e})
+		}
+	}
+	switch x := n.(type) {
+	case *ast.LetStatement:
+		add("let-value", x.Value)
+	case *ast.LetExpression:
+		add("let-value", x.Value)
+	case *ast.ReturnStatement:
+		add("return-value", x.ReturnValue)
+	case *ast.ExpressionStatement:
+		add("statement-expression", x.Expression)
+	case *ast.IfStatement:
+		add("if-condition", x.Condition)
+	case *ast.WhileStatement:
+		add("while-condition", x.Condition)
+	case *ast.ForStatement:
+		add("for-condition", x.Condition)
+		add("for-update", x.Update)
+	case *ast.BinaryExpression:
+		add("binary-right", x.Right)
+	case *ast.UnaryExpression:
+		add("unary-operand", x.Right)
+	case *ast.GroupedExpression:
+		add("grouped", x.Expression)
+	case *ast.CallExpression:
+		for _, a := range x.Arguments {
+			add("call-argument", a)
+		}
+	case *ast.MemberExpression:
+		if x.Computed {
+			add("index", x.Property)
+		} else {
+			add("member-property", x.Property)
+		}
+	case *ast.AssignmentExpression:
+		add("assignment-value", x.Value)
+	case *ast.CompoundAssignmentExpression:
+		add("assignment-value", x.Value)
+	case *ast.ArrayLiteral:
+		for _, e := range x.Elements {
+			add("array-element", e)
+		}
+	case *ast.ObjectLiteral:
+		for _, pr := range x.Properties {
+			add("object-value", pr.Value)
+		}
+	}
+}
+
+type roleExpr struct {
+	role string
+	e    ast.Expression
 }
 
 func leftmostStmt(s ast.Statement) (token.Token, bool) {
@@ -966,7 +1048,27 @@ func (e *Engine) Run(prop string, ch *kernel.Chooser, st *kernel.Stats) kernel.R
 			if valid && !equalInts(refS, p.StmtStarts) {
 				add("C04", "first-token", "first-token|statement-steps", fmt.Sprintf("statement interceptor saw current tokens %v, the program's statements start at tokens %v", refS, p.StmtStarts))
 			}
-			// every party saw the first token of the construct that was parsed
+			// every sub-expression of the (error-free) tree was obtained through an expression step of its own:
+		// an observer must have been entered at its first token
+		if valid && curBuild == 0 {
+			if bo := xutil.Parse(xutil.PlainBuilder(m), text); bo.Panic == nil && bo.Err == nil && bo.Program != nil {
+				seen := map[token.Position]bool{}
+				for _, er := range ref.exprRet {
+					seen[er.entry.Start] = true
+				}
+				xutil.WalkNodes(bo.Program, func(n any) {
+					var kids []roleExpr
+					exprChildren(n, &kids)
+					for _, k := range kids {
+						if lt, ok := leftmostExpr(k.e); ok && !seen[lt.Start] {
+							add("C04", "steps", "steps|expression-step-missing|"+k.role, fmt.Sprintf("no expression interceptor invocation started at %s, the first token of a %s sub-expression", xutil.TokString(lt), k.role))
+						}
+					}
+				})
+				st.Inc("probe.expression_step_coverage_checked")
+			}
+		}
+		// every party saw the first token of the construct that was parsed
 			for _, rr := range []*recorder{ref, rec} {
 				for _, sr := range rr.stmtRet {
 					if lt, ok := leftmostStmt(sr.node); ok && (lt.Start != sr.entry.Start || lt.Type != sr.entry.Type) {
@@ -1037,6 +1139,12 @@ func (e *Engine) Run(prop string, ch *kernel.Chooser, st *kernel.Stats) kernel.R
 							st.Inc("probe.funcexpr_in_condition")
 						}
 					}
+				}
+			}
+			// every step is balanced, on any input
+			for _, rr := range []*recorder{ref, rec} {
+				if rr.imbalance != "" {
+					add("C16", "step-balance", "step-balance", "a parse step returned with a different context than it was entered with: "+rr.imbalance)
 				}
 			}
 			// final state of the chosen input under the simulated installation
